@@ -136,6 +136,9 @@ type (
 		resetStreamsDuringTaggingJob   bitmask.LongBitmask
 		addedStreamsDuringTaggingJob   bitmask.LongBitmask
 		tagEditedDuringTaggingJob      bool
+		// streams whose data changed while a converter job was running: what that job stores for
+		// them may be the output for their old data, it is dropped again when the job is done
+		changedStreamsDuringConverterJob bitmask.LongBitmask
 
 		streamsToConvert         map[string]*bitmask.LongBitmask
 		pcapProcessorWebhookUrls []string
@@ -686,6 +689,9 @@ func (mgr *Manager) importPcapJob(filenames []string, nextStreamID uint64, exist
 			changedStreams := updatedStreams.Copy()
 			changedStreams.Or(*resetStreams)
 			mgr.invalidateConverters(&changedStreams)
+			if mgr.converterJobRunning {
+				mgr.changedStreamsDuringConverterJob.Or(changedStreams)
+			}
 		}
 		// remove finished job from queue
 		mgr.importJobs = mgr.importJobs[processedFiles:]
@@ -1611,6 +1617,13 @@ func (mgr *Manager) convertStreamJob(allConverters []*converters.CachedConverter
 
 	mgr.jobs <- func() {
 		mgr.converterJobRunning = false
+		if !mgr.changedStreamsDuringConverterJob.IsZero() {
+			// an import changed these streams while the job ran: the output stored for them is dropped
+			// and they are queued again
+			changed := mgr.changedStreamsDuringConverterJob
+			mgr.changedStreamsDuringConverterJob = bitmask.LongBitmask{}
+			mgr.invalidateConverters(&changed)
+		}
 
 		for i, converter := range allConverters {
 			// The converter was removed while we were running.
